@@ -48,7 +48,7 @@ Conforms(v, T) ==
     [] T.k = "dict"     -> v.t = "dict" /\ \A j \in 1..Len(v.e) : Conforms(v.e[j].k, T.a) /\ Conforms(v.e[j].v, T.b)
     [] T.k = "tuple"    -> v.t = "tuple" /\ Len(v.e) = Len(T.as) /\ \A j \in 1..Len(v.e) : Conforms(v.e[j], T.as[j])
     [] T.k = "tuplevar" -> v.t = "tuple" /\ \A j \in 1..Len(v.e) : Conforms(v.e[j], T.a)
-    [] T.k = "type"     -> v.t = "cls" /\ SubclassOf(v.n, T.c)
+    [] T.k = "type"     -> v.t = "cls" /\ (T.c = "any" \/ SubclassOf(v.n, T.c))          \* Type[Any]: every class
     [] T.k = "union"    -> \E j \in 1..Len(T.as) : Conforms(v, T.as[j])
     [] T.k = "literal"  -> \E j \in 1..Len(T.vs) : PyEq(v, T.vs[j])
     [] T.k = "bounded"  -> ConformsBase(v, T.n) /\ InBounds(v, T.lo, T.hi)
